@@ -8,7 +8,7 @@ from sfa.rules import resolve
 from sfa.rules import table
 
 LEVEL_TEXT = (
-    'Static decision of structural clauses of C16: (a) dialect agreement — every record written by to_delimited passes a csv.writer configured with delimiter and quote character, so every row source of from_delimited must pass a csv.reader configured with the same two parameters, and the csv/tsv wrappers pass matching delimiter constants; (c) pickle/deepcopy clause — __setstate__ re-freezes every owned array slot and __deepcopy__ uses array_deepcopy, which copies the flag; (b) every default token StoreFilter writes for NaN/None/inf is a member of the default set that reads it back, and the four lookup tables pair each predicate/value with the like-named token. (d) option forwarding — in every from_* / to_* / read* / write* entry point each call to a resolved callee that accepts a parameter named like one of the entry point\'s own parameters passes it on (383 sites; 15 confirmed exceptions listed with reasons): an import option such as store_filter, dtypes, index_depth is never silently dropped on one path. Pairs export: per path, to_pairs nests (major key, ((minor key, value), ...)) with major = index for axis 1 and columns for axis 0 over axis_values(axis). Record width: every header row and every data row of _to_str_records opens with exactly `index depth` cells on every branch (symbolic cell count, linear in the depth). Sibling defaults: a parameter taken by the same-named method of several container classes has the same default in each (confirmed exceptions listed in sfa/rules/forwardrules.py). Row-wise export dtype: the dtype resolver and the cached row dtype that every row-wise export (to_pairs(1), iter_tuple, iter_array, values) casts to keep their case structure — a dtype mismatch on append widens the cached row dtype (F3). Not decided: type re-inference by np.genfromtxt; multi-level header parsing.')
+    'Static decision of structural clauses of C16: (a) dialect agreement — every record written by to_delimited passes a csv.writer configured with delimiter and quote character, so every row source of from_delimited must pass a csv.reader configured with the same two parameters, and the csv/tsv wrappers pass matching delimiter constants; (c) pickle/deepcopy clause — __setstate__ re-freezes every owned array slot and __deepcopy__ uses array_deepcopy, which copies the flag; (b) every default token StoreFilter writes for NaN/None/inf is a member of the default set that reads it back, and the four lookup tables pair each predicate/value with the like-named token. (d) option forwarding — in every from_* / to_* / read* / write* entry point each call to a resolved callee that accepts a parameter named like one of the entry point\'s own parameters passes it on (383 sites; 15 confirmed exceptions listed with reasons): an import option such as store_filter, dtypes, index_depth is never silently dropped on one path. Pairs export: per path, to_pairs nests (major key, ((minor key, value), ...)) with major = index for axis 1 and columns for axis 0 over axis_values(axis). Record width: every header row and every data row of _to_str_records opens with exactly `index depth` cells on every branch (symbolic cell count, linear in the depth). Sibling defaults: a parameter taken by the same-named method of several container classes has the same default in each (confirmed exceptions listed in sfa/rules/forwardrules.py). Row-wise export dtype: the dtype resolver and the cached row dtype that every row-wise export (to_pairs(1), iter_tuple, iter_array, values) casts to keep their case structure — a dtype mismatch on append widens the cached row dtype (F3). Type tests: a class taken with type(v) is never tested by `in` against a tuple holding an abstract NumPy scalar class (equality never matches np.float64 / np.int64). Not decided: type re-inference by np.genfromtxt; multi-level header parsing.')
 
 CLAIM = dict(
     text=LEVEL_TEXT,
@@ -26,3 +26,4 @@ def run(ctx: Ctx) -> None:
     flowmisc.record_width(ctx)
     resolve.f3_resolver_shape(ctx)
     forwardrules.sibling_defaults(ctx, prefixes=('from_', 'to_', 'read', 'write'), suffix='io', floor=30)
+    resolve.type_membership_by_subclass(ctx)
